@@ -34,6 +34,8 @@ def worktree(name):
     rc, out = sh(['git', '-C', REPO, 'worktree', 'add', '--detach', d, 'HEAD'])
     if rc != 0:
         raise RuntimeError(out)
+    # Cargo.lock is not tracked: use the repository's pinned one
+    shutil.copy(os.path.join(REPO, 'Cargo.lock'), os.path.join(d, 'Cargo.lock'))
     return d
 
 
